@@ -103,11 +103,13 @@ func (p *Program) ParseVariablesJSON(vars map[string]string) (map[string]machine
 					param.Name, param.Typ, err)
 			}
 			variables[param.Name] = val
-			delete(vars, param.Name)
 		}
 	}
+	// the map belongs to the caller: it is read, not consumed
 	for name := range vars {
-		return nil, fmt.Errorf("extraneous variable $%s", name)
+		if _, declared := variables[name]; !declared {
+			return nil, fmt.Errorf("extraneous variable $%s", name)
+		}
 	}
 	return variables, nil
 }
